@@ -22,7 +22,9 @@ GEN_FILE = "Wake.lean"
 METHODS = [("sent", "record_sent"), ("ack", "record_ack"), ("cancel", "cancel"),
            ("advance", "advance_to_file"), ("resume", "request_resume"), ("push", "push_replay")]
 
-NOTIFY = re.compile(r"self\s*\.\s*cv\s*\.\s*notify_(all|one)\s*\(\s*\)")
+NOTIFY = re.compile(r"self\s*\.\s*(\w+)\s*\.\s*notify_(all|one)\s*\(\s*\)")
+WAITCV = re.compile(r"self\s*\.\s*(\w+)\s*\.\s*wait_timeout\w*\s*\(")
+READERS = ["set_peer", "peer", "replay_chunks_from", "is_cancelled", "cancel_reason", "timestamps", "offsets"]
 
 
 def norm(s):
@@ -89,7 +91,7 @@ def notify_entry(imp, method):
     best = min(entries, key=len)
     if len(entries) > 1 and best:
         best = ["unknown"]                       # a disjunction of guards is not representable: pessimistic
-    return best, [s.group(1) for s in sites]
+    return best, [s.group(2) for s in sites]
 
 
 class DangerousShape(Exception):
@@ -98,7 +100,21 @@ class DangerousShape(Exception):
     the defaults but the pessimistic fact `loop = []` (nothing is known to be tested), which no proof accepts."""
 
 
+def hoisted(imp, method):
+    """A shared field the condition depends on is read in the wait function outside its loop."""
+    b = fn_body(imp, method)
+    m = re.search(r"\bloop\s*\{", b)
+    if not m:
+        return False
+    outside = b[:m.start()] + b[match_brace(b, m.end() - 1):]
+    return re.search(r"\b(sent_offset|acked_offset|window_bytes|cancelled|pending_resume)\b", outside) is not None
+
+
 def loop_order(imp, method, pred_re):
+    # FACT (pessimistic): the shared fields the condition depends on are read on every pass, i.e. nowhere in
+    # the function outside the loop (a value hoisted out of the loop goes stale while the waiter sleeps)
+    if hoisted(imp, method):
+        return [], False, False
     try:
         return loop_order_(imp, method, pred_re)
     except DangerousShape:
@@ -188,10 +204,28 @@ def extract():
         facts["table"][key] = conds            # None = never, [] = unconditional
         facts["notify_calls"][method] = kinds
     facts["notifyAll"] = all(k == "all" for ks in facts["notify_calls"].values() for k in ks)
-    # the signalling methods run under the mutex as one region: exactly one `.lock()` each
-    for _, method in METHODS:
-        if len(re.findall(r"\.lock\(\)", fn_body(imp, method))) != 1:
-            raise ExtractError(f"{method}: not exactly one lock region")
+    # FACT (pessimistic): each signalling method is ONE critical section taken with a blocking `.lock()`.
+    # Two regions, a `try_lock`, no lock at all: the call may notify without (or apart from) its state
+    # change, so nothing can rest on its notification.
+    for key, method in METHODS:
+        b = fn_body(imp, method)
+        if len(re.findall(r"\.lock\(\)", b)) != 1 or re.search(r"try_lock|try_write|try_read", b):
+            if facts["table"][key] is not None:
+                facts["table"][key] = facts["table"][key] + ["unknown"]
+    # FACT (pessimistic): one condition variable.  A waiter parked on one condvar is not woken by a notify on
+    # another: if the two waits and the notify sites do not all name the same field, no notification counts.
+    cvs = set(m.group(1) for _, method in METHODS for m in NOTIFY.finditer(fn_body(imp, method)))
+    for w in ("wait_for_credit", "wait_for_reconnect"):
+        cvs |= set(m.group(1) for m in WAITCV.finditer(fn_body(imp, w)))
+    facts["condvars"] = sorted(cvs)
+    if len(cvs) != 1:
+        for key in facts["table"]:
+            if facts["table"][key] is not None and "unknown" not in facts["table"][key]:
+                facts["table"][key] = facts["table"][key] + ["unknown"]
+    # FACT: every read-only method (and set_peer) is one critical section: an observation is a state the
+    # control really was in
+    facts["readersAtomic"] = all(len(re.findall(r"\.lock\(\)", fn_body(imp, r))) == 1
+                                 and not re.search(r"try_lock|Atomic|\.load\(", fn_body(imp, r)) for r in READERS)
     facts["creditLoop"], facts["creditAtomic"], facts["creditClock"] = loop_order(
         imp, "wait_for_credit",
         r"if \w+ == 0 \|\| [^{}]*window_bytes[^{}]*\{ (?:[^{}]*; )?return Ok\(\(\)\);? \}")
@@ -199,7 +233,7 @@ def extract():
         imp, "wait_for_reconnect",
         r"if let Some\(pending\) = \w+\.pending_resume\.take\(\) \{ (?:[^{}]*; )?return [\w:]*ResumeReady\(pending\);? \}")
     cb = norm(fn_body(imp, "wait_for_credit"))
-    if not re.search(r"let \w+ = \w+.sent_offset.saturating_sub\(\w+\.acked_offset\);", cb):
+    if facts["creditLoop"] and not re.search(r"let \w+ = \w+.sent_offset.saturating_sub\(\w+\.acked_offset\);", cb):
         raise ExtractError("wait_for_credit: in_flight is not sent_offset.saturating_sub(acked_offset)")
     return facts
 
@@ -233,7 +267,9 @@ def render(f):
         f"def reconnectClock : Bool := {'true' if f['reconnectClock'] else 'false'}",
         "/-- is every notification `notify_all` -/",
         f"def notifyAll : Bool := {'true' if f['notifyAll'] else 'false'}",
-        "def cfg : Cfg := ⟨table, creditLoop, reconnectLoop, creditAtomic, reconnectAtomic, creditClock, reconnectClock, notifyAll⟩",
+        "/-- is every read-only method (and set_peer) one critical section -/",
+        f"def readersAtomic : Bool := {'true' if f['readersAtomic'] else 'false'}",
+        "def cfg : Cfg := ⟨table, creditLoop, reconnectLoop, creditAtomic, reconnectAtomic, creditClock, reconnectClock, notifyAll, readersAtomic⟩",
         "end Repe.Gen.Wake",
     ]) + "\n"
 
